@@ -63,6 +63,12 @@ def req_cases(tier: str, rng: random.Random) -> List[Dict[str, Any]]:
             for tu, mt in times:
                 for node, sock in ((1, 0), (2, 3)):
                     add(api, "K", number=number, time_unit=tu, max_time=mt, remote_node=node, socket=sock)
+    # ... with a fidelity constraint on top (the request that reaches the stack is the same; the first attempt is accepted)
+    for api in ("create_keep", "create_rsp"):
+        for number in (1, 2):
+            for tu, mt in times:
+                for fid in (80, 50):
+                    add(api, "K" if api != "create_rsp" else "R", number=number, time_unit=tu, max_time=mt, fid=fid)
     # measure directly: named bases, rotation triples, random basis sets
     for api in ("create_measure", "create(M)"):
         for bl in [""] + BASES:
@@ -178,6 +184,8 @@ def _run_req(item):
             if p["rb_remote"] >= 0:
                 rkw["random_basis_remote"] = RandomBasis(p["rb_remote"])
             n = p["number"]
+            if p.get("fid"):
+                tkw.update(min_fidelity_all_at_end=p["fid"], max_tries=2)
             if api == "create_keep":
                 for q in sock.create_keep(n, **tkw):
                     q.measure()
